@@ -25,11 +25,15 @@ def body_class(parts):
 def signature(clauses, e):
     if e["op"] == "resp_corrupt":
         return "%s:%s" % (",".join(clauses), e["obs"]["outcome"])
+    if e["op"] == "resp_status_line":
+        return "%s:%s:rel=%s:frame=%s" % (",".join(clauses), e["obs"]["outcome"], e["rel"], e["frame"])
     v = e["value"]
     return "%s:%s:ser=%s:parts=%d:%s" % (",".join(clauses), e["obs"]["outcome"], e.get("ser"), len(v["parts"]), body_class(v["parts"]))
 
 
 def describe(clauses, e):
+    if e["op"] == "resp_status_line":
+        return {"clauses": clauses, "rel": e["rel"], "frame": e["frame"], "line": e["line"], "outcome": e["obs"]["outcome"], "msg": e["obs"].get("msg")}
     if e["op"] == "resp_corrupt":
         return {"clauses": clauses, "class": e["cls"], "variant": e.get("variant"), "outcome": e["obs"]["outcome"], "doc": e.get("doc", "")[:200]}
     return {"clauses": clauses, "serialiser": e.get("ser"), "value": K.short(e["value"], 300), "parsed": K.short(e["obs"].get("parsed"), 300),
@@ -40,5 +44,6 @@ def run(tier, replay):
     return K.run_codec("C15", "c15", tier, describe, signature,
                        "Gen_Codec(c15): both serialisers (Response::generate_response, Response::generate) x 8 statuses x header lists x single parts over 12 body classes "
                        "(empty, binary 0..255, ending in CR / LF / CRLF, dashes, near-boundary) + all pairs of body classes as two parts + 3..6 parts; all 61 registered statuses; "
-                       "Response::parse of the bytes compared field by field; 8 corrupted serialisations must be rejected",
+                       "Response::parse of the bytes compared field by field; 8 corrupted serialisations must be rejected; for each of the 60 registered statuses x {single, multipart} the status line with one field corrupted "
+                       "(phrase of another status, truncated by a character / a word, extended by a character / a word, empty; unregistered code) must be rejected and the exact one accepted",
                        ["Content-Range / Content-Type / Content-Length added by the serialiser are not part of the compared header list (subset comparison)"], extra_cases=R.c15)
